@@ -282,7 +282,7 @@ def parseRmba (rest : Bytes) : Option Req :=
 
 def parseWmba (rest : Bytes) : Option Req :=
   match parseMem rest with
-  | some (alfid, a, s, rec) => some (.wmba a s alfid rec)
+  | some (alfid, a, s, rec) => if rec = [] then none else some (.wmba a s alfid rec)
   | none => none
 
 def parseUpDown (mk : Nat → Nat → Nat → Nat → Nat → Req) : Bytes → Option Req
